@@ -115,7 +115,7 @@ def detect(pid, v, checks, tier="quick", seed="1"):
             inc = re.findall(r"^INCONCLUSIVE (.*)", out, re.M)
             results[cid] = {"exit": rc, "signatures": [s[:160] for s in sigs[:6]], "inconclusive": [i[:160] for i in inc[:2]]}
     finally:
-        sh("git checkout -- .", cwd=REPO)
+        sh("git checkout -- ." + ("" if REPO == "/repo" else " && git clean -fdq"), cwd=REPO)  # new files of a patch are removed in scratch worktrees
     return results
 
 
